@@ -5,8 +5,9 @@
 (* running event (Cb ... Ret) and, at the end of every pass, which events exist and are enabled (PassEnd).     *)
 (* Each line must be the corresponding action of FdEvents (intended behaviour, Fix* = TRUE).  What the loop    *)
 (* does between the lines is not logged: Poll, NextFd, a Sub that does not fire and FinishFd are silent steps, *)
-(* and since FdEvents leaves the order of descriptors and of subscribers open, TLC searches for SOME order     *)
-(* that explains the recorded callbacks.  A Fault line (crash, exception, sanitizer report) matches nothing.   *)
+(* and since FdEvents leaves the order of ready descriptors open, TLC searches for SOME order of descriptors   *)
+(* (subscribers of one descriptor: enable order) that explains the recorded callbacks.  A Fault line (crash,   *)
+(* exception, sanitizer report) matches nothing.                                                              *)
 EXTENDS FdEvents, Json, IOUtils
 Log == ndJsonDeserialize(IOEnv.TRACE)
 VARIABLES l, ended          \* next line; last pass whose PassEnd line was consumed
@@ -23,12 +24,12 @@ Silent == UNCHANGED <<l, ended>>
 Blank ==
   /\ ev = [e \in E |-> NoEv] /\ recs = [r \in RID |-> DeadRec] /\ map = [fd \in FD |-> 0] /\ pool = <<>>
   /\ ready = [fd \in FD |-> {}] /\ closed = [fd \in FD |-> FALSE]
-  /\ phase = "idle" /\ rlist = {} /\ cur = NoCur /\ copy = {} /\ run = 0 /\ opsLeft = 0 /\ passes = 0
+  /\ phase = "idle" /\ rlist = {} /\ cur = NoCur /\ copy = <<>> /\ run = 0 /\ opsLeft = 0 /\ passes = 0
   /\ pins = {} /\ pollReady = [fd \in FD |-> {}] /\ cbEn = FALSE /\ viol = {}
 BlankP ==
   /\ ev' = [e \in E |-> NoEv] /\ recs' = [r \in RID |-> DeadRec] /\ map' = [fd \in FD |-> 0] /\ pool' = <<>>
   /\ ready' = [fd \in FD |-> {}] /\ closed' = [fd \in FD |-> FALSE]
-  /\ phase' = "idle" /\ rlist' = {} /\ cur' = NoCur /\ copy' = {} /\ run' = 0 /\ opsLeft' = 0 /\ passes' = 0
+  /\ phase' = "idle" /\ rlist' = {} /\ cur' = NoCur /\ copy' = <<>> /\ run' = 0 /\ opsLeft' = 0 /\ passes' = 0
   /\ pins' = {} /\ pollReady' = [fd \in FD |-> {}] /\ cbEn' = FALSE /\ viol' = {}
 TInit == Blank /\ l = 1 /\ ended = 0
 
